@@ -228,6 +228,14 @@ def m_hasattr(E, a, kw):
     raise Unsupported('hasattr on %r' % (v,))
 
 
+@model('slice')
+def m_slice(E, a, kw):
+    a = list(a) + [NONE] * (3 - len(a))
+    if len([x for x in a if x is not NONE]) == 1 and a[1] is NONE:
+        return VSlice(NONE, a[0], NONE)
+    return VSlice(a[0], a[1], a[2])
+
+
 @model('bool')
 def m_bool(E, a, kw):
     return VBool(E.truth(a[0])) if a else VBool(False)
